@@ -126,12 +126,16 @@ TOKENS = ["a", "B", "é", "%41", "%c3%a9", "%C3%A9", " ", "%20", "+", "%2B", "/"
           # range boundaries and raw twins: last C0 control, raw no-break space, a literal '%' followed by a NON-ASCII digit and a hex letter
           "%1F", "\xa0", "%\uff11a",
           # invisible but meaningful content (zero-width joiner): not a control character, not whitespace
-          "\u200d"]
+          "\u200d",
+          # brackets: delimiters of an IPv6 literal in the authority (a raw one in the userinfo makes the URL unparseable), plain data elsewhere
+          "%5B", "%5D", "[",
+          # multi-byte UTF-8 sequences cut short after two / three valid bytes (the undecodable range is longer than one byte)
+          "%E2%82", "%F0%9F%98"]
 
 # tokens that would change the component structure when placed raw in a component are excluded per component
 EXCLUDE = {
-    "user": {"/", "?", "#", "@", ":", " "},
-    "password": {"/", "?", "#", "@", " "},
+    "user": {"/", "?", "#", "@", ":", " ", "["},
+    "password": {"/", "?", "#", "@", " ", "["},
     "path": {"?", "#"},
     "query": {"#"},
     "fragment": set(),
